@@ -394,6 +394,129 @@ def wrappers(t):
     return out, t
 
 
+def vm_modifier_arms(vfn, variants):
+    """{(variant, is_trivia): arm-body node} of Vm::parse_rule, found by evaluating its control structure for each rule
+    type and for a WHITESPACE/COMMENT name vs an ordinary one - whatever the spelling: nested `if name.. { match ty }`,
+    one `match (is_trivia, rule.ty)`, a bool local, guards."""
+    lets = hirq.lets(vfn["body"])
+
+    def name_test(c, ws):
+        """Truth of a condition over the rule's name for a trivia rule (ws=True) or an ordinary one; None if c is not one."""
+        c = peel(c)
+        k = kind(c)
+        if k == "Lit" and c.get("lk") == "bool":
+            return bool(c.get("v"))
+        if k == "Path" and c.get("res") == "local" and c["id"] in lets:
+            return name_test(lets[c["id"]][0], ws)
+        if k == "Unary" and c["op"] == "!":
+            v = name_test(c["e"], ws)
+            return None if v is None else (not v)
+        if k == "Binary" and c["op"] in ("||", "&&"):
+            a, b = name_test(c["l"], ws), name_test(c["r"], ws)
+            if a is None or b is None:
+                return None
+            # for the ordinary rule both name comparisons are false; for a trivia rule at least one is true
+            return (a or b) if c["op"] == "||" else (a and b)
+        lits = set(x.get("v") for x in walk(c) if kind(x) in ("Lit", "PLit") and x.get("lk") == "str")
+        if lits and lits <= {"WHITESPACE", "COMMENT"} and any(
+                (kind(x) == "Field" and x["name"] == "name") or (kind(x) == "Path" and x.get("name") in ("name", "rule"))
+                for x in walk(c)):
+            if k == "Binary" and c["op"] == "!=":
+                return not ws
+            return ws   # `name == "WHITESPACE"`: true (for at least one of the two names) iff the rule is trivia
+        return None
+
+    def pat_ok(p, val):
+        k = p.get("k")
+        if k in ("PWild",) or (k == "PBind" and not p.get("sub")):
+            return True
+        if k == "PLit" and p.get("lk") == "bool":
+            return bool(p.get("v")) == val
+        if k == "POr":
+            return any(pat_ok(q, val) for q in p["pats"])
+        vs = hirq.pat_variants(p)
+        if vs:
+            return RTYPE + "::" + val in vs if isinstance(val, str) else False
+        return False
+
+    def sel(n, ty, ws, depth=0):
+        n0 = n
+        n = peel(n)
+        k = kind(n)
+        if depth > 12 or n is None:
+            return None
+        if k == "Block":
+            if n.get("expr") is not None:
+                return sel(n["expr"], ty, ws, depth + 1)
+            sts = [s for s in n.get("stmts", []) if s.get("k") in ("Expr", "Semi")]
+            return sel(sts[-1]["e"], ty, ws, depth + 1) if sts else None
+        if k == "Ret" and n.get("e") is not None:
+            return sel(n["e"], ty, ws, depth + 1)
+        if k == "If":
+            c = peel(n["cond"])
+            if kind(c) == "LetExpr" and any(kind(x) == "MethodCall" and x["m"] == "get" for x in walk(c["init"])):
+                return sel(n["then"], ty, ws, depth + 1)      # the user's rule was found
+            v = name_test(c, ws)
+            if v is None:
+                return None
+            return sel(n["then"] if v else n.get("else"), ty, ws, depth + 1)
+        if k == "Match":
+            scr = peel(n["scrut"])
+            if kind(scr) == "Tup":
+                vals = []
+                for e in scr["elems"]:
+                    e = peel(e)
+                    if RTYPE in str(e.get("ty", "")):
+                        vals.append(ty)
+                    else:
+                        vals.append(name_test(e, ws))
+                if any(v is None for v in vals):
+                    return None
+                for arm in n["arms"]:
+                    p = arm["pat"]
+                    if p.get("k") == "PTuple" and len(p["pats"]) == len(vals) and all(pat_ok(q, v) for q, v in zip(p["pats"], vals)):
+                        if arm.get("guard") is not None:
+                            g = name_test(arm["guard"], ws)
+                            if g is None:
+                                return None
+                            if not g:
+                                continue
+                        return sel(arm["body"], ty, ws, depth + 1) if kind(peel(arm["body"])) in ("If", "Match") and (
+                            RTYPE in str(peel(arm["body"]).get("sty", "")) or kind(peel(arm["body"])) == "If" and name_test(peel(arm["body"])["cond"], ws) is not None) else arm["body"]
+                    if hirq.pat_is_catchall(p):
+                        return arm["body"]
+                return None
+            if RTYPE in str(n.get("sty", "")) or RTYPE in str(scr.get("ty", "")):
+                for arm in n["arms"]:
+                    if pat_ok(arm["pat"], ty):
+                        if arm.get("guard") is not None:
+                            g = name_test(arm["guard"], ws)
+                            if g is None:
+                                return None
+                            if not g:
+                                continue
+                        b = peel(arm["body"])
+                        if kind(b) == "If" and name_test(b["cond"], ws) is not None:
+                            return sel(b, ty, ws, depth + 1)
+                        return arm["body"]
+                return None
+            return None
+        return n0
+
+    out = {}
+    # start below the listener prologue: the `if let Some(rule) = self.rules.get(..)` statement or tail
+    roots = [x for x in walk(vfn["body"]) if kind(x) == "If" and kind(peel(x["cond"])) == "LetExpr"
+             and any(kind(y) == "MethodCall" and y["m"] == "get" and "HashMap" in str(y.get("rty", "")) for y in walk(x["cond"]))]
+    if not roots:
+        return out
+    for ty in variants:
+        for ws in (False, True):
+            b = sel(roots[0], ty, ws)
+            if b is not None:
+                out[(ty, ws)] = b
+    return out
+
+
 def rule_rule(rep, ctx, sfx):
     r = rep.rule("C02.RULE" + sfx, 10,
                  "per RuleType x {ordinary, WHITESPACE/COMMENT}: wrapper chain (rule / atomic(kind), outer to "
@@ -495,22 +618,13 @@ def rule_rule(rep, ctx, sfx):
 
     programs = dis = 0
     samples = []
-    # --- VM arms
+    # --- VM arms (selected symbolically per rule type x trivia/ordinary)
     vm_terms = {}
-    for mm in [x for x in walk(vfn["body"]) if kind(x) == "Match" and RTYPE in x.get("sty", "")]:
-        hctx = hirq.Ctx(vfn)
-        is_ws = None
-        for g in hctx.guards(mm):
-            if g[0] == "if":
-                lits = set(x.get("v") for x in walk(g[1]) if kind(x) == "Lit")
-                if {"WHITESPACE", "COMMENT"} <= lits:
-                    is_ws = g[2]
-        for arm in mm["arms"]:
-            for v in hirq.pat_variants(arm["pat"]):
-                hf = HirFront(vfn, {}, rec_callees=[VM + "::parse_expr"], skip_callees=[VM + "::skip"],
-                              rule_callees=[VM + "::parse_rule"])
-                t = hf.term(arm["body"])
-                vm_terms[(v.split("::")[-1], bool(is_ws))] = (t, arm, hf.problems)
+    for (v, isws), body in vm_modifier_arms(vfn, variants).items():
+        hf = HirFront(vfn, {}, rec_callees=[VM + "::parse_expr"], skip_callees=[VM + "::skip"],
+                      rule_callees=[VM + "::parse_rule"])
+        tm = hf.term(body)
+        vm_terms[(v, isws)] = (tm, {"body": body}, hf.problems)
     for ws in (None, "WHITESPACE"):
         for ty in variants:
             programs += 1
